@@ -47,7 +47,7 @@ ASSUMPTIONS = [
     "machine-list order, instance name and metadata are left unspecified",
 ]
 
-PERTS = ["dur", "machine", "add_machine", "append", "remove", "swap", "resplit"]
+PERTS = ["dur", "machine", "add_machine", "append", "remove", "swap", "resplit", "later_machine"]
 
 
 def strategy(tier):
@@ -56,7 +56,7 @@ def strategy(tier):
         max_jobs=4, max_ops=4, max_machines=4, max_total=12 if big else 9, with_text=True, big_ok=2
     )
     pert = st.tuples(
-        st.integers(0, 6999).map(lambda i: PERTS[i % 7]),
+        st.integers(0, 7999).map(lambda i: PERTS[i % 8]),
         st.integers(0, 20),
         st.integers(0, 20),
         st.integers(1, 5),
@@ -95,6 +95,18 @@ def perturb(inst, spec):
         if cand in m[j][p]:
             return None
         m[j][p] = m[j][p] + [cand]
+    elif kind == "later_machine":
+        # same first machine, same number of alternatives, a different later one
+        flex = [(jj, pp) for jj, row in enumerate(m) for pp, ms in enumerate(row) if len(ms) > 1]
+        if not flex:
+            return None
+        j, p = flex[(x + y) % len(flex)]
+        old = m[j][p]
+        cand = next((c for c in range(z % (n_m + 1), z % (n_m + 1) + n_m + 1) if c % (n_m + 1) not in old), None)
+        if cand is None:
+            return None
+        i = 1 + y % (len(old) - 1)
+        m[j][p] = old[:i] + [cand % (n_m + 1)] + old[i + 1 :]
     elif kind == "append":
         d[j].append(z)
         m[j].append([y % n_m])
